@@ -186,7 +186,7 @@ pub fn workload_line(seed: u64, i: u64) -> String {
     let schema_text = world.schema.render();
     let cfg = QueryCfg::draw(&mut tapes.query, false);
     let mut q = gen_query(&world, &mut tapes.query, cfg);
-    let args = gen_args(&q, &mut tapes.args);
+    let args = gen_args(&q, &world, &mut tapes.args);
     let variant = i % 5;
     let (kind, a, b, c) = match variant {
         0 | 1 | 2 => observe_query(&world, &schema_text, &q, &args),
